@@ -552,7 +552,8 @@ fn put_tris(o: &mut Out, mesh: &Mesh) {
     }
 }
 
-/// Witness predicate of the finding `C06-round-arc-subdivision-rounded-down`: some round join
+/// Witness predicate of the finding `C06-round-arc-subdivision-rounded-down` (fixed in lyon commit
+/// da84e187: `.log2().ceil()`; before, `.round()`): some round join
 /// (arc = the turn angle) or round cap (two quarter arcs) of this input needs `n = ceil(arc/step)`
 /// chords for the tolerance but `round(log2 n)` subdivisions give fewer than `n` (n = 5, 9, 10, 11, 17..22, ...).
 /// Computed with a margin (lyon measures the arc with a polynomial atan2), so borderline inputs count as members.
@@ -607,7 +608,6 @@ fn stroke_case(ctx: &mut Ctx, fam: Fam) {
         let max_segs = if round { 4 } else { 7 };
         let poly = gen_poly(rng, w, lattice, max_segs);
         let cfg = gen_cfg(rng, w, round);
-        let strict = rng.chance(1, 2);
         let mut args = Out::new();
         cfg.put(&mut args);
         args.b(poly.closed).u(poly.pts.len() as u64);
@@ -654,23 +654,17 @@ fn stroke_case(ctx: &mut Ctx, fam: Fam) {
                 Fam::Cover => ("stroke.rect", 2, inner_region(&poly, hw, None)),
                 Fam::Reach => ("stroke.reach", 3, outer_region(&poly, &cfg, eps, None)),
                 Fam::RoundIn => {
-                    // inputs matching the witness predicate of the arc-subdivision finding: half of
-                    // them keep the stated demand under the finding's own clause, the other half
-                    // are checked against the flattening error that rounding down can produce at
-                    // most (2 x tolerance), so that any OTHER violation on such inputs is still reported
+                    // Inputs matching the witness predicate of the (fixed, lyon commit da84e187) finding
+                    // C06-round-arc-subdivision-rounded-down keep their own clause, so a regression of
+                    // that defect is reported under its name; the demand is the stated tolerance everywhere.
                     let member = has_rounded_down_arc(&poly, &cfg);
-                    let (prefix, allowed) = match (member, strict) {
-                        (false, _) => ("stroke.round-inner", tol),
-                        (true, true) => ("stroke.round-inner.subdiv-rounded-down", tol),
-                        (true, false) => ("stroke.round-inner", 2.0 * tol),
-                    };
+                    let prefix = if member { "stroke.round-inner.subdiv-rounded-down" } else { "stroke.round-inner" };
+                    let allowed = tol;
                     let r = hw - allowed - eps * hw;
                     if r <= 0.05 * hw {
-                        // nothing is demanded: the tolerance eats the whole half-width (empty checker input)
+                        // nothing is demanded: the tolerance eats the whole half-width
                         orc.skip("tolerance-exceeds-half-width");
-                        let mut c = Out::new();
-                        c.t(prefix).u(1).u(2).f(delta).u(0).u(0);
-                        return (CaseOut { imp: o, orcl: orc.verdict }, Some(c));
+                        return (CaseOut { imp: o, orcl: orc.verdict }, None);
                     }
                     (prefix, 2, inner_region(&poly, r, Some((0.25 * tol).min(0.5 * r))))
                 }
